@@ -96,10 +96,20 @@ single("CheckBitPatterns", self_fields={"_pattern_sizes": "Optional[list[int]]"}
 single("CheckPermutedBitPatterns",
        loops_extra={1: dict(cut=True, invariant=list(_SEARCH_INV), keep={'g_N'}),
                     2: dict(cut=True, invariant=list(_SEARCH_INV), keep={'g_N'})})
+FWG = "paranoid_crypto/lib/special_case_factoring.py::FactorWithGuess"
 single("CheckUnseededRand", self_fields={"_storage": "ref:Storage"},
        ref_methods={("Storage", "GetUnseededRands"): ("list[int]", ["forall(j, 0, len(result), result[j] >= 1)"])},
        loops_extra={1: dict(cut=True, invariant=list(_SEARCH_INV), types={"factors": "Optional[list[int]]"},
-                            keep={'g_N'})})
+                            keep={'g_N'},
+                            head=["g_t0 = False", "g_t1 = False", "g_t2 = False"],
+                            # C04 search space: unless an earlier guess already factored n, the listed output AND both
+                            # top-bit variants (msb set, two msbs set) are handed to FactorWithGuess
+                            body_end=[("C04", "implies(not factors, g_t0 and g_t1 and g_t2)")])},
+       extra={"on_call": {SET: list(ON_SET), ATT: list(ON_ATT_PRODUCT + ON_ATT_PROPER),
+                          FWG: ["g_t0 = g_t0 or args[1] == p_0", "g_t1 = g_t1 or args[1] == bor(p_0, msb_1)",
+                                "g_t2 = g_t2 or args[1] == bor(p_0, msb_11)"]},
+              "entry_ghost": list(ENTRY) + ["g_t0 = False", "g_t1 = False", "g_t2 = False"],
+              "props": ["C01", "C04", "C06", "C16", "C17", "C18"]})
 
 
 def aggregate(cls, head_n, on_att, crit, extra_fields=None, requires=()):
